@@ -111,9 +111,29 @@ REGISTRY = {
             'per-row reference values come from the reference interpreter, products and means from the row list',
         ],
     },
+    'C16': {
+        'world': 'cat', 'profile': '', 'faulty': False,
+        'sessions': {'quick': 7000, 'thorough': 100000},
+        'budget': {'quick': 90, 'thorough': 1500},
+        'rule': 'One case = one seeded catalog structure (1-4 controllers of sizes 1-4, catalogs sharing a controller, '
+                'catalogs nested under members of other catalogs, optional segmentation / generic-alt-specific helper '
+                'catalogs) and a session of configure / select / operator / increase-decrease / iterate / identifier / '
+                'evaluate / BIOGEME.from_configuration operations stepped against a dict controller->index. Distinct = '
+                'distinct sha256 of (operation kinds, model state). Non-trivial = at least 2 controllers and at least 3 '
+                'operator applications.',
+        'components': {'real': REAL, 'stub': ['random seeded before each operator call (Increase_several / Decrease_several)']},
+        'assumptions': [
+            'Increase_several / Decrease_several are only required to return a valid configuration (their documented direction is not part of the property)',
+            'no I/O or crash fault applies: catalogs touch no file; the history of operator applications on shared mutable controllers is the schedule',
+        ],
+    },
 }
 
 LEVEL_TEXT = {
+    'C16': 'Seeded search over catalog structures and operator histories on shared mutable controllers; after every step '
+           'the configuration, every catalog selection and the value of the configured formula are compared with a '
+           'product-space model and the formula written out by hand (reference interpreter and a fresh biogeme '
+           'expression). Sampling, not proof.',
     'C09': 'Seeded search over panel tables, presentation orders, removal histories and thread counts; per-individual '
            'values, likelihood, simulated values, individual map and sample size are compared with a row-list reference '
            '(product over exactly the individual\'s rows, one draw per individual and draw index, mean over R). Sampling, not proof.',
@@ -142,7 +162,6 @@ NOT_APPLICABLE = {
     'C03': 'not yet built in this tree (planned: by-name store histories)',
     'C10': 'not yet built in this tree (planned: W-eval draws profile)',
     'C12': 'not yet built in this tree (planned: W-eval fault profile)',
-    'C16': 'not yet built in this tree (planned: W-cat)',
     'C02': 'derivatives are a pure function of (formula, row, parameter point): no schedule, clock, fault or history; deciding it is numerical differential testing, not simulation',
     'C05': 'choice probabilities are pure algebra of utilities, availabilities and nest parameters: nothing for a simulator to schedule or fault',
     'C06': 'model-family consistency is pure algebra relating two formulas on the same inputs',
